@@ -9,6 +9,11 @@ CLAIMS = {
   note="VTA call graph over-approximates dynamic calls; stdlib and x/text are not analysed; guards are recognised as SSA comparisons of the counter with a bound",
   technique="static analysis: call-graph SCC inventory + CFG path rules (edge dominance, must-precede/must-follow) on go/ssa",
   ref="DESIGN.md §4 C01"),
+ "C17": dict(
+  text="Static effect argument for 'a parsed font can be shared': no function that can run after package initialisation writes memory derived from a package-level variable (R-GLOBAL, only exemption: a direct store inside a literal passed to sync.Once.Do), and no function reachable from the exported API outside constructors writes memory derived from any *font.Font (R-FONT; subsumes caching a per-goroutine object on the font). All mutation kinds are covered (stores, map updates, copy/append destinations, delete/clear, sort.*, binary Put*, io.Read*). Absence of such writes implies absence of data races on that memory under every schedule; equality of concurrent and sequential results beyond that is not decided.",
+  note="origin tracking is context-insensitive and field-based; references stored as elements of non-derived containers are re-discovered by type only; stdlib/x-text/x-image trusted; no unsafe/reflect/cgo (checked)",
+  technique="static analysis: interprocedural origin (taint) tracking on go/ssa + VTA call-graph reachability (init-only / post-construction sets)",
+  ref="DESIGN.md §4 C17"),
  "C20": dict(
   text="Static, exhaustive evaluation of every generated table literal (P-LIT) against the coherence conditions the lookups rely on (sortedness/disjointness for bisection, family disjointness, pre-filter = union, compose/decompose inverse, mirroring involution, language table order/canonical form/identifier correspondence) plus an SSA-derived bit-effect check of di.Direction setters/getters. Decides internal coherence for all code points; does not decide agreement with the UCD.",
   note="trusts unicode.Is, sort.Search and the short bisection loops; tables are evaluated from syntax with go/types constants, nothing is executed",
